@@ -275,6 +275,21 @@ def main(tier):
     rule_N(prog, chk)
     rule_S(prog, chk)
     rule_L2(prog, chk)
+    # O: order of the setters applied to the member objects a reader rebuilds (needs the classes of those objects)
+    import c08_order
+    if tier == "thorough":
+        oprog = prog
+    else:
+        cov = os.path.join(REPO, "src/Covariances")
+        extra = [os.path.join(cov, x) for x in sorted(os.listdir(cov)) if x.endswith(".cpp") and (x.startswith("Cov") or x in ("ACovFunc.cpp", "ACov.cpp", "ACovAnisoList.cpp"))]
+        extra += [os.path.join(REPO, u) for u in ("src/Basic/Tensor.cpp", "src/Basic/Rotation.cpp", "src/Space/SpaceTarget.cpp", "src/Geometry/BiTargetCheckDistance.cpp")
+                  if os.path.exists(os.path.join(REPO, u))]
+        extra = [u for u in extra if u not in units]
+        oprog = Program().load_dir(extract(extra, "C08o-" + tier))
+        oprog.load_dir(d)
+        oprog.load_dir(dh)
+        chk.units += [u for u in oprog.units if u not in chk.units]
+    c08_order.rule_O(oprog, chk, 2)
     return chk.finish()
 
 
